@@ -115,8 +115,14 @@ class SendDriver:
             self.conn.callRemote('/p%d' % i, 'M%d' % i, interface='org.ex.I', destination='org.ex.D',
                                  signature=sig, body=body, expectReply=(i % 3 != 0))
         else:
-            m = message.MethodCallMessage('/p%d' % i, 'M%d' % i, interface='org.ex.I', signature=sig,
-                                          body=body, oobFDs=[])
+            # a message object that was sent before with the same descriptors is sent again as it is (a retry)
+            key = (shape, tuple(fds))
+            self.kept = getattr(self, 'kept', {})
+            m = self.kept.get(key)
+            if m is None:
+                m = message.MethodCallMessage('/p%d' % i, 'M%d' % i, interface='org.ex.I', signature=sig,
+                                              body=body, oobFDs=[])
+                self.kept[key] = m
             self.conn.sendMessage(m)
         self.sent = i
 
@@ -253,6 +259,8 @@ def run(tier, seed):
         [[5], [], [7, 8, 9], [6, 6], []],
         [[5, 7, 7], [3], [9, 9, 9]],
         [[], [4, 5], [5, 4], [1]],
+        # the 2nd and the 12th message are the same object sent twice (same shape, same descriptors)
+        [[1], [4], [], [2], [], [], [3, 3], [], [], [], [], [4]],
     ]
     for _ in range(20 if thorough else 4):
         plans.append([[rng.randint(3, 12) for _ in range(rng.choice([0, 1, 2, 3]))] for _ in range(rng.randint(2, 6))])
